@@ -5,6 +5,7 @@ import Drv.Registry
 import Drv.Components
 import Drv.World
 import Drv.Order
+import Drv.Adapt
 /-! Line-protocol driver: `driver <layer> [args]` reads operation lines on stdin and prints one
     answer line per operation, computed by the executable model definitions. -/
 def main (args : List String) : IO Unit := do
@@ -16,4 +17,5 @@ def main (args : List String) : IO Unit := do
   | "components" :: _ => Drv.Components.main
   | "world" :: _ => Drv.World.main
   | "order" :: rest => Drv.Order.main rest
+  | "adapt" :: rest => Drv.Adapt.main rest
   | _ => IO.eprintln "usage: driver <layer>"
